@@ -6,11 +6,8 @@
 //!   vcheck replay-saved <ID> <out.json>       replay /verif/replays/<ID>/*.json
 //!   vcheck helper <kind> ...                  helper processes (idle child, arena)
 
-mod fw;
-mod props;
-mod vcore;
-
-use fw::*;
+use vcheck::fw::*;
+use vcheck::{props, vcore};
 use serde_json::Value;
 use std::path::{Path, PathBuf};
 use std::process::{Command, Stdio};
